@@ -168,8 +168,8 @@ fin_job!(job_threads, SubjectThreads<V, E>, finalize_threads, Form::Threads);
 
 pub fn plan(tier: Tier) -> Plan {
   let len = match tier {
-    Tier::Quick => 6,
-    Tier::Thorough => 8,
+    Tier::Quick => 8,
+    Tier::Thorough => 10,
   };
   let mut jobs = vec![];
   for shape in [Shape::Plain, Shape::ThenTake1, Shape::AfterTake1, Shape::Twice] {
